@@ -122,12 +122,19 @@ type Expected struct {
 
 // fold is the oracle: decode every file in command-line order, fold Apply over stdin.
 func fold(s *Scen) (e Expected) {
-	defer func() {
-		if r := recover(); r != nil {
-			e = Expected{Success: false, Why: fmt.Sprintf("the library panicked: %v", r)}
-		}
-	}()
 	api := sim.APIFor(s.Target)
+	// (inside a pristine simulated world: see sim.Alone)
+	r, hung := sim.Alone(api, 4_000_000_000, func() { e = foldIn(api, s) })
+	switch {
+	case hung:
+		e = Expected{Success: false, Why: "the library did not return"}
+	case r != nil:
+		e = Expected{Success: false, Why: fmt.Sprintf("the library panicked: %v", r)}
+	}
+	return e
+}
+
+func foldIn(api sim.API, s *Scen) (e Expected) {
 	var patches []any
 	for i, a := range s.Args {
 		if a.Stray != "" {
